@@ -53,6 +53,7 @@ def shards(tier):
     for i in range(len(SUB)):
         out.append({'n': 3, 'first': i})
     out.append({'kind': 'e2e'})
+    out.append({'kind': 'filter'})
     return out
 
 
@@ -60,6 +61,10 @@ def run_shard(shard, ctx, tier):
     from mc.core import guarded_check
     import sys
     mod = sys.modules[__name__]
+    if shard.get('kind') == 'filter':
+        for margins in itertools.product(range(len(MARGINS)), repeat=3):
+            guarded_check(mod, {'filter': list(margins)}, ctx)
+        return
     if shard.get('kind') == 'e2e':
         texts = [''.join(p) for n in range(1, 4) for p in itertools.product('ab ', repeat=n)]
         for t1 in texts:
@@ -322,7 +327,56 @@ def check_e2e(case, ctx):
     ctx.nontrivial(('e2e', tuple(texts)), 'end-to-end-pages')
 
 
+MARGINS = [1.0, 0.4, 2.0008, 3.3, 0.05]
+
+
+def check_filter(case, ctx):
+    """the page-level confidence filter applied to a layout rebuilt from PAGE XML + logits keeps the same lines"""
+    import configparser
+    import torch
+    from scipy import sparse
+    from pero_ocr.core.layout import PageLayout, RegionLayout, TextLine
+    from pero_ocr.document_ocr.page_parser import PageParser
+    chars = ['a', 'b', '​']
+    page = PageLayout(id='p.jpg', page_size=(100, 300))
+    reg = RegionLayout('r1', np.asarray([[0, 0], [300, 0], [300, 100], [0, 100]]))
+    for k, mi in enumerate(case['filter']):
+        m = MARGINS[mi]
+        M = np.asarray([[m, 0.01 * (k + 1), -3.0], [-3.0, -2.5, m + 0.5], [0.02, m, -3.0], [-3.0, -3.5, 2.0]])
+        reg.lines.append(TextLine(id=f'r1-l{k}', baseline=np.asarray([[10, 20 + 25 * k], [250, 20 + 25 * k]]),
+                                  polygon=np.asarray([[10, 5 + 25 * k], [250, 5 + 25 * k], [250, 24 + 25 * k], [10, 24 + 25 * k]]),
+                                  heights=[12, 4], logits=sparse.csc_matrix(M), characters=list(chars), logit_coords=[0, 4], transcription='ab'))
+    page.regions.append(reg)
+    ctx.state(('filter', tuple(case['filter'])))
+    confs = [float(PageParser.compute_line_confidence(l)) for l in page.lines_iterator()]
+    ths = sorted({round((c + float(f'{c:.3f}')) / 2, 7) for c in confs if abs(c - float(f'{c:.3f}')) > 2e-5} | {0.5})
+    for t in ths:
+        cfg = configparser.ConfigParser()
+        cfg['PAGE_PARSER'] = {'RUN_LAYOUT_PARSER': 'no', 'RUN_LINE_CROPPER': 'no', 'RUN_OCR': 'no', 'RUN_DECODER': 'no',
+                              'FILTER_CONFIDENT_LINES_THRESHOLD': repr(t)}
+        parser = PageParser(cfg, device=torch.device('cpu'))
+        first = parser.process_page(None, copy.deepcopy(page))
+        xml, blob = first.to_pagexml_string(), first.save_logits_bytes()
+        rebuilt = PageLayout()
+        rebuilt.from_pagexml_string(xml)
+        rebuilt.load_logits(blob)
+        second = parser.process_page(None, rebuilt)
+        ctx.executed(5)
+        a = [(l.id, l.transcription) for l in first.lines_iterator()]
+        b = [(l.id, l.transcription) for l in second.lines_iterator()]
+        if a != b:
+            ctx.violation('rebuilt-layout-redecodes-identically', f'{ID}/e2e/confidence-filter-differs-on-rebuilt-layout',
+                          f'line confidences {confs}, FILTER_CONFIDENT_LINES_THRESHOLD={t}: lines kept from the original {a}, from the layout rebuilt '
+                          f'from its PAGE XML + logits {b}')
+            return
+        if 0 < len(a) < len(confs):
+            ctx.nontrivial(('filter', tuple(case['filter']), t), 'filter-splits-the-page')
+    ctx.outcome(('filter', len(ths)))
+
+
 def check_case(case, ctx):
+    if 'filter' in case:
+        return check_filter(case, ctx)
     if 'e2e' in case:
         check_e2e(case, ctx)
     else:
@@ -338,5 +392,5 @@ def describe(tier):
         'bounds': BOUNDS[tier],
         'alphabets': {'matrices': MATS, 'charsets': CHARSETS, 'windows': WINDOWS},
         'assumptions': ['no stored entry is exactly 0.0 (precondition of the format)', 'line ids never equal the table keys'],
-        'min_nontrivial': 100, 'required_tags': ['multi-line-pages', 'missing-component-cases', 'end-to-end-pages'],
+        'min_nontrivial': 100, 'required_tags': ['multi-line-pages', 'missing-component-cases', 'end-to-end-pages', 'filter-splits-the-page'],
     }
